@@ -385,3 +385,39 @@ def check_flush_keeps_records(chk, ix):
                              "flush() on a buffer of %d records (capacity %d) leaves %s: a scenario that logs more than the capacity loses records from "
                              "the report of its failing step" % (n_records, capacity, "%d records" % len(items) if items is not None else "an unknown buffer"),
                              file=f.file, line=f.lineno, stmt="def flush"))
+
+
+
+def check_teardown_abandons(chk, ix):
+    """K4 (pairing, by evaluation): teardown_capture() takes the log capture handler off the root logger whenever log
+    capture is on - also after a scenario that logged nothing (the handler object is false while its buffer is empty)."""
+    chk.rule("K4", WHAT["K4"])
+    cc = ix.cls("behave.capture:CaptureController")
+    lc = ix.cls("behave.log_capture:LoggingCapture")
+    f = cc.lookup("teardown_capture")
+    if f is None:
+        raise AnalysisError("anchor missing: CaptureController.teardown_capture")
+    for log_on in (True, False):
+        for records in ((), ("record",)):
+            called = []
+            it = Interp(ix, stubs={"LoggingCapture.abandon": lambda i, s_, a, k, n: (called.append(1), [(s_, "val", None)])[1]}, name="teardown_capture")
+            it.int_sat = 100
+            st = State()
+            st.frames = []
+            cfg = st.alloc(HObj("ConfigStub", {"stdout_capture": True, "stderr_capture": True, "log_capture": log_on}, label="config"))
+            handler = st.alloc(HObj(lc, {"buffer": st.alloc(HObj("list", kind="list", items=list(records)))}, label="log capture handler")) if log_on else None
+            ctl = st.alloc(HObj(cc, {"config": cfg, "stdout_capture": None, "stderr_capture": None, "log_capture": handler, "old_stdout": None,
+                                     "old_stderr": None}, label="controller"))
+            outs = it.call_function(st, f, [], {}, None, self_val=ctl)
+            chk.absorb(it)
+            chk.instance("K4")
+            if len(outs) != 1 or outs[0][1] != "val":
+                raise AnalysisError("teardown_capture not evaluable: %r" % [(k, v) for _, k, v in outs][:3])
+            if bool(called) == log_on:
+                chk.ok("K4", {"log_capture": log_on, "records captured": len(records), "handler abandoned": bool(called)}, nontrivial_key=("teardown", log_on, len(records)))
+            else:
+                chk.fail(Finding("K4", f.fullname, "log_capture=%s, %d records: abandon %s" % (log_on, len(records), "called" if called else "not called"),
+                                 "teardown_capture() with log capture %s after a scenario that logged %s: the capture handler is %s the root logger - it stays "
+                                 "installed and the root level it replaced is never restored" % (
+                                     "on" if log_on else "off", "nothing" if not records else "something", "taken off" if called else "left on"),
+                                 file=f.file, line=f.lineno, stmt="def teardown_capture"))
